@@ -262,6 +262,13 @@ def sharedRep (sh : Shared) : Expr → Bool
   | .lit .infinity => sh.inf
   | _ => false
 
+/-- `previous_op` that `EXPRop2__out` hands to its RIGHT operand: its own operator (then a right operand with the same operator
+loses its parentheses) or `OP_UNKNOWN` — regenerated -/
+def rprev (o : BinOp) : Option BinOp := if ExpPrec.rightOperandSeesParent then some o else none
+
+/-- a right operand with the same operator continues the chain without parentheses -/
+def BinOp.chainR (o : BinOp) : Bool := o.omitSame && ExpPrec.rightOperandSeesParent
+
 def binParen (o : BinOp) (paren : Bool) (prev : Option BinOp) : Bool :=
   o.padded && paren && (!o.omitSame || prev != some o)
 
@@ -284,7 +291,7 @@ def exprFrags (sh : Shared) : Expr → Bool → Option BinOp → List Frag
   | .bin o a b, paren, prev =>
     (if binParen o paren prev then [W "( "] else [])
       ++ exprFrags sh a true (some o) ++ (if o.padded then [R " "] else []) ++ [W o.text]
-      ++ (if o.padded then [W " "] else []) ++ exprFrags sh b true (some o)
+      ++ (if o.padded then [W " "] else []) ++ exprFrags sh b true (rprev o)
       ++ (if binParen o paren prev then [R " )"] else [])
   | .neg a, paren, _ =>
     (if paren then [W "( "] else []) ++ [W "-"] ++ exprFrags sh a true none ++ (if paren then [R " )"] else [])
